@@ -37,23 +37,27 @@ OPTION_SETS = [
 
 def bounds(tier):
     if tier == "quick":
-        return {"shapes": "W-DAG(n<=4) (30 shapes)", "routes": 3, "max_weight": 3, "ignored": "every single arc", "constraints": "all 2-3 arc subpaths + non-contiguous pairs"}
+        return {"shapes": "W-DAG(n<=4) (30 shapes, weights<=3) + n=5 with <=5 arcs (85 shapes, weights<=2)", "routes": 3, "max_weight": 3, "ignored": "every single arc", "constraints": "all 2-3 arc subpaths + non-contiguous pairs"}
     return {"shapes": "W-DAG(n<=5), arcs<=7", "routes": 3, "max_weight": 3, "flows_per_shape_cap": "all for n<=4; n=5: flows from <=2 routes weights<=3",
             "ignored": "every single arc", "constraints": "all", "subgraph_scanning_window": [3, 2]}
 
 
 def cases(tier, seed):
     q = tier == "quick"
-    shapes = world.dag_shapes(4 if q else 5)
+    shapes = world.dag_shapes(5)
     for idx, shp in enumerate(shapes):
         n, arcs_i = shp
-        if n == 5 and len(arcs_i) > 7:
+        if n == 5 and len(arcs_i) > (5 if q else 7):
             continue
         names, arcs = world.present(shp, seed, idx)
         g, paths = fdworld.dag_routes(names, arcs)
         pa = [O.path_arcs(p) for p in paths]
-        R = 3 if n <= 4 else 2
-        flows = fdworld.fd_flows(pa, arcs, R, 3)
+        if n <= 4:
+            flows = fdworld.fd_flows(pa, arcs, 3, 3)
+        elif len(arcs_i) <= 5:
+            flows = fdworld.fd_flows(pa, arcs, 3, 2)
+        else:
+            flows = fdworld.fd_flows(pa, arcs, 2, 3)
         for fv in sorted(flows):
             heavy = (n <= 4) or (sum(fv) % 3 == 0)
             yield {"nodes": names, "arcs": [[u, v, w] for (u, v), w in zip(arcs, fv)], "full": bool(heavy),
